@@ -946,6 +946,7 @@ where
                 arguments.push("-fpreprocessed".into());
             }
             arguments.extend(dist::osstrings_to_strings(&parsed_args.common_args)?);
+            arguments.extend(dist::osstrings_to_strings(&parsed_args.arch_args)?);
             Some(dist::CompileCommand {
                 executable: path_transformer.as_dist(executable)?,
                 arguments,
